@@ -333,14 +333,12 @@ func DependsOn(v ssa.Value, pred func(ssa.Value) bool) bool {
 				return true
 			}
 		}
-		// loads from an Alloc depend on the values stored to it
+		// loads from (a part of) an Alloc depend on the values stored to (any part of) it
 		if u, ok := x.(*ssa.UnOp); ok && u.Op == token.MUL {
-			if refs := u.X.Referrers(); refs != nil {
-				for _, r := range *refs {
-					if st, ok := r.(*ssa.Store); ok && st.Addr == u.X {
-						if walk(st.Val) {
-							return true
-						}
+			if root, ok := AddrRoot(u.X).(*ssa.Alloc); ok {
+				for _, st := range StoresInto(root) {
+					if walk(st.Val) {
+						return true
 					}
 				}
 			}
@@ -431,5 +429,54 @@ func SortedKeys(m map[string]bool) []string {
 		out = append(out, k)
 	}
 	sort.Strings(out)
+	return out
+}
+
+// AddrRoot strips FieldAddr/IndexAddr to the base pointer.
+func AddrRoot(v ssa.Value) ssa.Value {
+	for {
+		switch x := v.(type) {
+		case *ssa.FieldAddr:
+			v = x.X
+		case *ssa.IndexAddr:
+			v = x.X
+		default:
+			return v
+		}
+	}
+}
+
+// StoresInto lists stores whose address is rooted at alloc a (within a's function).
+func StoresInto(a *ssa.Alloc) []*ssa.Store {
+	var out []*ssa.Store
+	seen := map[ssa.Value]bool{}
+	var walk func(addr ssa.Value)
+	walk = func(addr ssa.Value) {
+		if seen[addr] {
+			return
+		}
+		seen[addr] = true
+		refs := addr.Referrers()
+		if refs == nil {
+			return
+		}
+		for _, r := range *refs {
+			switch y := r.(type) {
+			case *ssa.Store:
+				if y.Addr == addr {
+					out = append(out, y)
+				}
+			case *ssa.FieldAddr:
+				if y.X == addr {
+					walk(y)
+				}
+			case *ssa.IndexAddr:
+				if y.X == addr {
+					walk(y)
+				}
+			}
+		}
+	}
+	walk(a)
 	return out
 }
